@@ -259,8 +259,7 @@ class Run(object):
       self.r = wm.protocols.MetricPickleReceiver()
       self.r.makeConnection(self.tr)
     else:
-      self.r = wm.protocols.MetricDatagramReceiver()
-      self.r.peerName = 'peer'
+      self.r = wm.protocols.MetricDatagramReceiver()       # as CarbonService.startService creates it: no connectionMade(), no peerName
       # the UDP port: there is no connection that an idle timeout could close
       self.tr.stopListening = self.tr.loseConnection
       self.r.transport = self.tr
